@@ -245,6 +245,47 @@ def gen_both_sides_market_history(rng, tier):
             "fund_seed": rng.randrange(1 << 30), "scalars": None}
 
 
+def gen_deep_auction_history(rng, tier):
+    """call auction on a deep book: while matching is off, 7-20 limit orders accumulate per side over several price
+    levels (partly crossing), then one to three MARKET orders arrive on one or both sides behind them, perhaps a few
+    more limit orders, and the first round after matching resumes sweeps several levels."""
+    tick = rng.choice([1.0, 0.5, 0.1, 0.25])
+    base = rng.choice([100, 300, 1000])
+    ops = [["R", True]]
+    for _ in range(rng.randint(1, 3)):
+        ops.append(["R", False])
+        width = rng.randint(4, 10)
+        overlap = rng.randint(1, 4)
+        nb, ns = rng.randint(7, 20), rng.randint(7, 20)
+        seq = [True] * nb + [False] * ns
+        rng.shuffle(seq)
+        for k, side in enumerate(seq):
+            lev = base + (overlap - rng.randint(0, width) if side else -overlap + rng.randint(0, width))
+            ops.append(["L", side, lev * tick, rng.randint(1, 3), rng.choice([None, None, 40]), 0])
+            if rng.random() < 0.12:
+                ops.append(["T"])
+        for side in rng.choice([[True], [False], [True, False], [False, True]]):
+            for _m in range(rng.randint(1, 3)):
+                ops.append(["M", side, rng.randint(1, 4), None, 2])
+        for _ in range(rng.randint(0, 3)):
+            side = rng.random() < 0.5
+            lev = base + (overlap - rng.randint(0, width) if side else -overlap + rng.randint(0, width))
+            ops.append(["L", side, lev * tick, rng.randint(1, 3), None, 1])
+        if rng.random() < 0.3:
+            ops.append(["T"])
+        ops.append(["R", True])
+        if rng.random() < 0.5:
+            ops.append(["X"])
+        else:
+            # the first order of the continuous phase clears the book
+            side = rng.random() < 0.5
+            ops.append(["L", side, (base + (width if side else -width)) * tick, rng.randint(4, 12), None, 1])
+        ops.append(["T"])
+    add_sweeps(rng, {"ops": ops})
+    return {"tick": tick, "p0": base * tick, "auto": True, "mode": "deep-auction", "ops": ops,
+            "fund_seed": rng.randrange(1 << 30), "scalars": None}
+
+
 def gen_expiry_history(rng, tier):
     """books of 6-16 resting orders per side from which orders leave ONLY by expiry (from the tail, the middle or the
     head of whatever structure holds them), followed by a few more arrivals and a sweep from the other side; no
